@@ -55,6 +55,14 @@ use super::jt::*;
 //@@ include prelude/lexstd.rs
 }
 use ls::*;
+pub mod js {
+use vstd::prelude::*;
+use super::rd::*;
+use super::jg::*;
+use super::ls::*;
+//@@ include lemmas/json_string.rs
+}
+use js::*;
 
 use std::io::ErrorKind;
 //@@ file-consts src/json_parser.rs
@@ -171,6 +179,12 @@ pub trait JsonParserUtils {
         requires old(self).rv2().ok, old(self).rv2().cur is Some,
         ensures lex_post(old(self).rv2(), final(self).rv2(), r), progress(old(self).rv2(), final(self).rv2(), r),
             r is Ok ==> r->Ok_0 is String, // @tobl L2.kind
+            // the value is the RFC 8259 decoding of the token (escape table, \uXXXX, everything else verbatim), the token ends at
+            // its closing quote and the byte after it is the current byte
+            ({ let p = old(self).rv2().pending;
+               r is Ok ==> (match (r->Ok_0, str_dec(p, 1, Seq::empty())) {
+                   (JsonValue::String(s), Some((bytes, k))) => str_bytes(s@) == bytes && final(self).rv2().pending =~= from(p, k + 1),
+                   _ => false }) }), // @tobl L3.decode
 //@@ endfn
 //@@ fn jsonparserutils.parse_to_double = src/json_parser.rs :: trait JsonParserUtils :: fn parse_to_double
 //@@ ret r
@@ -348,26 +362,77 @@ impl<R: Read> JsonParserUtils for Reader<R> {
 //@@ fn lex.read_string = src/json_parser.rs :: impl<R: Read> JsonParserUtils for Reader<R> :: fn read_string
 //@@ safety C01 C05 C06 C16
 //@@ rewrite try_io
+//@@ body-start
+        let ghost pp = self.pending();
+        proof { assert(rest_at(pp, self.rest(), 1)); }
 //@@ loop 1
             invariant
             rview(self).ok, self.name() == old(self).name(),
             advance(old(self).pending(), self.pending()),
-                self.cur() is Some,
+                self.cur() is Some, pp == old(self).pending(),
+                rest_at(pp, self.rest(), pp.len() - self.rest().len()), self.cur() == pp[pp.len() - self.rest().len() - 1],
+                str_dec(pp, pp.len() - self.rest().len(), chars@) == str_dec(pp, 1, Seq::empty()),
             decreases self.pending().len(),
 //@@ loop-start 1
             let ghost l0 = self.pending().len();
+            let ghost idx: int = pp.len() - self.rest().len() - 1;
+            let ghost c0 = chars@;
+            broadcast use ls::axiom_spec_bytes;
+//@@ before "self.next()?;"
+                    proof {
+                        assert(pp[idx + 1] == Some(0x22u8));
+                        assert(str_dec(pp, idx + 1, c0) == Some((c0, idx + 1)));
+                    }
+//@@ before "match String::from_utf8(chars) {"
+                    proof {
+                        assert(self.pending() =~= from(pp, idx + 2));
+                    }
+//@@ before "chr = (chr << 4) | d;"
+                                    proof {
+                                        let k = it4.index@ as int;
+                                        assert(at(pp, idx + 3 + k) == Some(c));
+                                        assert(hexv(c) == Some(d));
+                                        assert(hex_acc(pp, idx + 3, k + 1) == Some((chr << 4) | d));
+                                    }
+//@@ loop-end 1
+            proof {
+                let x = pp[idx + 1]->Some_0;
+                if x == 0x5cu8 {
+                    let y = pp[idx + 2]->Some_0;
+                    assert(at(pp, idx + 2) == Some(y));
+                    if y != 0x75u8 {
+                        assert(str_dec(pp, idx + 1, c0) == str_dec(pp, idx + 3, chars@));
+                    }
+                } else {
+                    assert(str_dec(pp, idx + 1, c0) == str_dec(pp, idx + 2, chars@));
+                }
+            }
 //@@ loop 2 iter it4
                             invariant
                                 self.pending().len() < l0,
             rview(self).ok, self.name() == old(self).name(),
             advance(old(self).pending(), self.pending()),
                                 self.cur() is Some, self.pending().len() < old(self).pending().len(),
+                                pp == old(self).pending(), chars@ == c0, idx == pp.len() - l0, 0 <= it4.index@ <= 4,
+                                rest_at(pp, self.rest(), idx + 3 + it4.index@), self.cur() == pp[idx + 2 + it4.index@],
+                                hex_acc(pp, idx + 3, it4.index@ as int) == Some(chr),
 //@@ loop 3 iter itb
                                     invariant
                                         self.pending().len() < l0,
             rview(self).ok, self.name() == old(self).name(),
             advance(old(self).pending(), self.pending()),
                                         self.cur() is Some, self.pending().len() < old(self).pending().len(),
+                                        pp == old(self).pending(), idx == pp.len() - l0,
+                                        rest_at(pp, self.rest(), idx + 7), self.cur() == pp[idx + 6],
+                                        itb.seq().len() == utf8_of(ch).len(), 0 <= itb.index@ <= itb.seq().len(),
+                                        forall|j: int| 0 <= j < itb.seq().len() ==> *(#[trigger] itb.seq()[j]) == utf8_of(ch)[j],
+                                        chars@ == c0.add(utf8_of(ch).subrange(0, itb.index@)),
+//@@ after-loop 3
+                                proof {
+                                    assert(utf8_of(ch).subrange(0, utf8_of(ch).len() as int) =~= utf8_of(ch));
+                                    assert(pp[idx + 1] == Some(0x5cu8) && at(pp, idx + 2) == Some(0x75u8));
+                                    assert(str_dec(pp, idx + 1, c0) == str_dec(pp, idx + 7, chars@));
+                                }
 //@@ endfn
 //@@ fn lex.parse_to_double = src/json_parser.rs :: impl<R: Read> JsonParserUtils for Reader<R> :: fn parse_to_double
 //@@ safety C01 C05 C19
@@ -389,6 +454,8 @@ impl<R: Read> JsonParser for Reader<R> {
             assert(self.pending().len() > 0 ==> self.pending()[0] == p[w]);
             assert(self.pending().len() == 0 ==> w == p.len());
         }
+        broadcast use js::lemma_from_from;
+        proof { lemma_str_dec_bounds(from(old(self).pending(), ws_run(old(self).pending()) as int), 1, Seq::empty()); }
 //@@ endfn
 }
 
